@@ -1,6 +1,7 @@
 import Driver.Proto
 import PolyVerif.Gen.Sdf
 import PolyVerif.Model.SdfOps
+import PolyVerif.Model.SdfVarLine
 
 namespace Driver.C19
 open PolyVerif PolyVerif.Gen
@@ -35,8 +36,26 @@ def coneRef (a b : V) (r1 r2 : Float) (p : V) : Float :=
 def spheres (fs : List Float) (k : Nat) : List (V → Float) :=
   (List.range k).map fun i => sdf.Sphere (v3 fs (4*i)) (fs.getD (4*i+3) 0)
 
+def linePts (fs : List Float) (k : Nat) : List (V × Float) :=
+  (List.range k).map fun i => (v3 fs (4*i), fs.getD (4*i+3) 0)
+
 def handle (op : String) (args : List String) : Option String := do
   match op with
+  | "c19.varline" => do          -- k, k × (x y z r), p
+      let k ← nat? (← args.head?)
+      let fs ← floats? args.tail
+      match SdfVarLine.VarryingThicknessLine (linePts fs k) with
+      | some f => pure (fHex (f (v3 fs (4*k))))
+      | none => pure "panic"
+  | "c19.holds.varline_sign" => do   -- k, k × (x y z r), p, f(p): sign agrees with the union over consecutive pairs of the ball-union reference
+      let k ← nat? (← args.head?)
+      let fs ← floats? args.tail
+      let pts := linePts fs k
+      let p := v3 fs (4*k)
+      let f := fs.getD (4*k+3) 0
+      let refs := (pts.zip pts.tail).map fun se => coneRef se.1.1 se.2.1 se.1.2 se.2.2 p
+      let ref := refs.foldl min (refs.headD 0)
+      pure (boolStr (ref.abs < 1e-3 || (ref < 0) == (f < 0)))
   | "c19.union" | "c19.intersect" => do
       let k ← nat? (← args.head?)
       let fs ← floats? args.tail
